@@ -21,7 +21,7 @@ where
         usize::try_from(n).map_err(|e| io::Error::new(io::ErrorKind::InvalidData, e))
     })?;
 
-    let mut bins = IndexMap::with_capacity(n_bin);
+    let mut bins = IndexMap::with_capacity(n_bin.min(1 << 16));
     let mut metadata = None;
 
     for _ in 0..n_bin {
